@@ -108,6 +108,9 @@ pub struct Taint {
     windows: HashSet<[u8; W]>,
     windows_dec: HashSet<Vec<u8>>,
     pub patterns: Vec<(String, Vec<u8>)>,
+    /// patterns shorter than a window that are searched for as a whole (short secrets made of characters nothing else in
+    /// the workload uses)
+    whole: Vec<(String, Vec<u8>)>,
 }
 
 fn is_dec(name: &str) -> bool {
@@ -133,10 +136,12 @@ impl Taint {
                 }
             }
         }
+        let whole: Vec<(String, Vec<u8>)> = patterns.iter().filter(|(n, p)| n.ends_with("(whole)") && p.len() >= 4 && p.len() < W).cloned().collect();
         Taint {
             windows,
             windows_dec,
             patterns,
+            whole,
         }
     }
 
@@ -161,6 +166,11 @@ impl Taint {
 
     /// Name of the first pattern of which ≥ 16 consecutive bytes (decimal lists: ≥ 40) occur in `hay`.
     pub fn scan(&self, hay: &[u8]) -> Option<String> {
+        for (n, p) in &self.whole {
+            if hay.len() >= p.len() && hay.windows(p.len()).any(|w| w == &p[..]) {
+                return Some(n.clone());
+            }
+        }
         if hay.len() >= W {
             for w in hay.windows(W) {
                 let mut a = [0u8; W];
@@ -193,6 +203,13 @@ fn key_patterns(secret: &str, date: &str, region: &str, service: &str) -> Vec<(S
     let k = sha::derive(secret.as_bytes(), date, region.as_bytes(), service.as_bytes());
     let mut out = Vec::new();
     forms("secret", secret.as_bytes(), &mut out);
+    if secret.len() < W {
+        // a short secret cannot be told from chance by windows; the short secrets this check uses are made of characters that
+        // nothing else in the workload produces, so a whole-string occurrence is meaningful
+        out.push(("secret raw (whole)".to_string(), secret.as_bytes().to_vec()));
+        out.push(("secret escape_debug (whole)".to_string(), secret.escape_debug().to_string().into_bytes()));
+        out.push(("secret escape_default (whole)".to_string(), secret.escape_default().to_string().into_bytes()));
+    }
     let mut pre = b"AWS4".to_vec();
     pre.extend_from_slice(secret.as_bytes());
     forms("AWS4+secret", &pre, &mut out);
@@ -472,7 +489,13 @@ fn shard(seed: u64, shard: u64, n: u64) -> Tally {
             16 + r.usize_below(25)
         };
         let mut secret = r.string_from(B64ISH, len);
-        if r.chance(1, 4) {
+        let short = r.chance(1, 6);
+        if short {
+            // 2–7 characters (4–14 bytes) from an alphabet nothing else here uses: fixtures and mocks have secrets like that
+            let n = 2 + r.usize_below(6);
+            secret = (0..n).map(|_| *r.pick(&['§', '¶', '¤', '¦', 'µ'])).collect();
+            t.count("short_secrets_of_rare_characters");
+        } else if r.chance(1, 4) {
             let odd = *r.pick(&["\n", "\r\n", " ", "\t", "\"", "\\", "é", "\u{a0}", "'"]);
             if r.coin() {
                 secret.push_str(odd);
@@ -585,13 +608,14 @@ pub fn run(tier: Tier) -> i32 {
     ctx.gate("cases run the way a deployment logging at Debug does (trace records disabled)", tally.get("cases_run_with_logger_at_debug"), tier.n(10_000, 300_000));
     ctx.gate("secrets longer than the default key type holds (the provider's refusal travels through the library)", tally.get("secrets_longer_than_the_key_type_holds"), tier.n(3_000, 100_000));
     ctx.gate("secrets with white space / quote / backslash / non-ASCII at an edge", tally.get("secrets_with_odd_edge_character"), tier.n(5_000, 150_000));
+    ctx.gate("cases with a 2–7 character secret (searched for as a whole)", tally.get("short_secrets_of_rare_characters"), tier.n(10_000, 300_000));
     ctx.gate("refusals of a prefix / one-digit-off variant of the correct signature scanned", tally.get("near_miss_of_correct_signature_refused"), tier.n(500, 10_000));
     ctx.gate("public key / request / response types formatted", tally.get("public_key_types_formatted"), tier.n(10_000, 300_000));
     ctx.gate("log records at debug level or above judged", tally.get("log_records_judged/DEBUG") + tally.get("log_records_judged/INFO") + tally.get("log_records_judged/WARN") + tally.get("log_records_judged/ERROR"), tier.n(100, 1000));
     let rep = Report {
         level: "exploration",
-        rule: "Taint scan. Every execution of W-sign / W-defect (no defect, each injector alone — a refusal at every rank incl. every provider failure kind —, random pairs; both carriers, all option sets) runs with a capturing log::Log at max level Trace. Scanned: the error's Display and Debug plus its alternate / hex-flavoured / width / precision renderings and its source() chain, {} {:#} {:80} {:.8} {:?} {:#?} {:x?} {:#x?} {:X?} of KSecretKey…KSigningKey and of KeyTooLongError (also boxed and converted), GetSigningKeyRequest/Response, SigV4AuthenticatorResponse, (unstable feature) CanonicalRequest, AuthParams, SigV4Authenticator, returned principal/session, and every captured log record of level Error/Warn/Info/Debug, including records emitted while keys are constructed and values formatted (trace records are counted and used only as the control); a quarter of the shards run with the logger at Debug, as a deployment would. Patterns: secret, 'AWS4'+secret, kDate, kRegion, kService, kSigning — raw, hex, HEX, separated hex (`:`/space/`0x`/`\\x`, found after separators are stripped), base64 (std / url-safe, three alignments), decimal and hex lists ({:?} {:x?} {:X?} {:02x?} {:#04x?}), escape_ascii, escape_debug, lossy UTF-8, trimmed — and, for a refused request, the correct signature the reference model computes (either case); a match of ≥ 16 consecutive pattern bytes is a violation. Secrets are 16–64 random characters (longer than 40: the provider's key type refuses them), a quarter with white space, a quote, a backslash or a non-ASCII character at an edge; wrong signatures include prefixes and one-digit-off variants of the correct one (then only the complete correct signature counts). Distinct = distinct scanned cases by hash.".into(),
-        assumptions: vec!["leaks shorter than 16 consecutive bytes of a pattern are not detected".into(), "trace-level records are outside the statement".into()],
+        rule: "Taint scan. Every execution of W-sign / W-defect (no defect, each injector alone — a refusal at every rank incl. every provider failure kind —, random pairs; both carriers, all option sets) runs with a capturing log::Log at max level Trace. Scanned: the error's Display and Debug plus its alternate / hex-flavoured / width / precision renderings and its source() chain, {} {:#} {:80} {:.8} {:?} {:#?} {:x?} {:#x?} {:X?} of KSecretKey…KSigningKey and of KeyTooLongError (also boxed and converted), GetSigningKeyRequest/Response, SigV4AuthenticatorResponse, (unstable feature) CanonicalRequest, AuthParams, SigV4Authenticator, returned principal/session, and every captured log record of level Error/Warn/Info/Debug, including records emitted while keys are constructed and values formatted (trace records are counted and used only as the control); a quarter of the shards run with the logger at Debug, as a deployment would. Patterns: secret, 'AWS4'+secret, kDate, kRegion, kService, kSigning — raw, hex, HEX, separated hex (`:`/space/`0x`/`\\x`, found after separators are stripped), base64 (std / url-safe, three alignments), decimal and hex lists ({:?} {:x?} {:X?} {:02x?} {:#04x?}), escape_ascii, escape_debug, lossy UTF-8, trimmed — and, for a refused request, the correct signature the reference model computes (either case); a match of ≥ 16 consecutive pattern bytes is a violation. Secrets are 16–64 random characters, or (one case in six) 2–7 characters from an alphabet nothing else in the workload uses, searched for as a whole (longer than 40: the provider's key type refuses them), a quarter with white space, a quote, a backslash or a non-ASCII character at an edge; wrong signatures include prefixes and one-digit-off variants of the correct one (then only the complete correct signature counts). Distinct = distinct scanned cases by hash.".into(),
+        assumptions: vec!["leaks shorter than 16 consecutive bytes of a pattern are not detected, except whole short secrets of 4–15 bytes".into(), "trace-level records are outside the statement".into()],
         extra: J::obj().set("calibrated_vectors", J::i(pre.unwrap_or(0) as i64)),
     };
     finish(&ctx, tally, rep)
